@@ -6,3 +6,6 @@ export CARGO_NET_OFFLINE=true
 cp /repo/Cargo.lock harness/Cargo.lock 2>/dev/null || true
 (cd lean && lake build)
 (cd harness && cargo build --offline)
+# the real server binary the rpc engine drives (C10, C14); rebuilt from /repo's working tree by every check run
+
+cargo build --offline --manifest-path /repo/Cargo.toml -p kyrodb-engine --bin kyrodb_server --target-dir "$(pwd)/harness/target/server"
